@@ -172,6 +172,7 @@ struct Agg {
 fn e1_gencfg(args: &Args, prop: &str) -> e1::GenCfg {
     let tier = args.get("tier").unwrap_or("quick");
     e1::GenCfg {
+        big: args.flag("big"),
         prop: prop.to_string(),
         allow_rln: !args.flag("no-rln"),
         allow_pm: cfg!(feature = "pm") && !args.flag("no-pm"),
@@ -355,7 +356,7 @@ fn run_e1(args: &Args, prop: &str, run_seed: u64, known: &HashSet<String>, dir: 
 #[cfg(feature = "pm")]
 fn run_e1store(args: &Args, run_seed: u64, known: &HashSet<String>, dir: &std::path::Path, local: &mut Agg, want_logs: bool) {
     let thorough = args.get("tier") == Some("thorough");
-    let trace = e1_store::generate_c16(run_seed, thorough, known);
+    let trace = e1_store::generate_c16_profile(run_seed, thorough, known, args.flag("crash") && run_seed % 2 == 0);
     let d = trace.digest();
     local.traces.insert(d);
     if local.samples.len() < 2 && trace.steps.len() <= 8 {
